@@ -588,10 +588,16 @@ func (c *Context) onKilled(message *vivid.OnKilled, behavior vivid.Behavior) {
 
 	v := chain.NewVoid()
 	if c.zombie {
+		// 僵尸仅在确认自身死亡时释放一次：他人的死亡通知（例如其监听的 Actor）不应触发自身的终止流程，
+		// 释放后清除僵尸标记，使后续到达的消息按已终止 Actor 处理（进入死信），避免重复发布终止事件、重复通知父节点
+		if !message.Ref.Equals(c.ref) {
+			return
+		}
 		handler.shouldContinue = true
 		handler.prepareSelfKilledMessage()
 		handler.restarting = false
 		handler.cleanupIfNotRestarting()
+		c.zombie = false
 		return
 	}
 
